@@ -15,7 +15,7 @@ from core import Harness
 from props.eval_common import CheckCap, MutationOnlyRep, Recording, ScriptRep, SpyBudget, StructuralRep, uid
 
 from geneticengine.algorithms.gp.gp import GeneticProgramming, default_generic_programming_step
-from geneticengine.algorithms.gp.operators.combinators import ParallelStep, SequenceStep
+from geneticengine.algorithms.gp.operators.combinators import ExclusiveParallelStep, ParallelStep, SequenceStep
 from geneticengine.algorithms.gp.operators.crossover import GenericCrossoverStep
 from geneticengine.algorithms.gp.operators.elitism import ElitismStep
 from geneticengine.algorithms.gp.operators.mutation import GenericMutationStep
@@ -79,10 +79,15 @@ GP_STEPS = {
     "mutation(1);tournament": lambda: SequenceStep(GenericMutationStep(1), TournamentSelection(2)),
     "tournament;mutation(1)": lambda: SequenceStep(TournamentSelection(2), GenericMutationStep(1)),
     "elitism|tournament;mutation(1)": lambda: ParallelStep([ElitismStep(), SequenceStep(TournamentSelection(2), GenericMutationStep(1))], weights=[1, 3]),
+    # crossover LAST on its slice (nothing after it trims an odd slice), exclusive-parallel steps nested in a parallel step's slices
+    "tournament;mutation(1);crossover(1)": lambda: SequenceStep(TournamentSelection(2), GenericMutationStep(1), GenericCrossoverStep(1)),
+    "novelty|xpar[mutation(1),crossover(1)]": lambda: ParallelStep([NoveltyStep(), ExclusiveParallelStep([GenericMutationStep(1), GenericCrossoverStep(1)])], weights=[1, 3]),
+    "elitism|xpar[mutation(1),crossover(1)]": lambda: ParallelStep([ElitismStep(), ExclusiveParallelStep([GenericMutationStep(1), GenericCrossoverStep(1)], [2, 1])], weights=[1, 9]),
     "elitism": lambda: ElitismStep(),
     "tournament": lambda: TournamentSelection(2),
 }
-PROGRESSING = ["default", "elitism|novelty", "tournament;crossover(1);mutation(1)", "novelty", "mutation(1);tournament"]
+PROGRESSING = ["default", "elitism|novelty", "tournament;crossover(1);mutation(1)", "novelty", "mutation(1);tournament",
+               "tournament;mutation(1);crossover(1)", "novelty|xpar[mutation(1),crossover(1)]", "elitism|xpar[mutation(1),crossover(1)]"]
 NON_PROGRESSING = ["elitism", "tournament"]
 
 
@@ -226,6 +231,10 @@ def check_evaluation_budgets(h: Harness):
             one("hc", size, None, n)
             steps = PROGRESSING if h.thorough else [PROGRESSING[(n + size) % len(PROGRESSING)], "mutation(1);tournament"][: (2 if n % 4 == 0 else 1)]
             for st in steps:
+                # (crossover on a slice of ONE individual passes it through: such a slice creates nothing new -- the open finding's
+                # family; the compositions that end in crossover are run with populations of at least 3)
+                if size < 3 and st.endswith("crossover(1)") or size < 3 and "xpar" in st:
+                    st = "default"
                 one("gp", size, st, n)
     # a search space of exactly one program (a recursive grammar searched at its minimum depth, IntRange(5, 5)): every mutation
     # and crossover returns a genotype equal to its input -- still a new individual, evaluated and counted
